@@ -215,8 +215,9 @@ pub fn run(ctx: &Ctx) -> i32 {
     games.extend(skeletons(&tiny).iter().enumerate().filter(|(_, s)| crate::checks::has_decision(s)).step_by(step).map(|(i, s)| (format!("u{}", i), fill_distinct(s, i))));
     let dir = work_dir("C16");
     let mut staged = Vec::new();
-    for (name, tree) in &games {
-        if let Some(file) = json_file(name, tree) {
+    for (gi, (name, tree)) in games.iter().enumerate() {
+        // (the JSON text in one of three layouts, by position in the game list)
+        if let Some(file) = crate::cli::json_file_layout(name, tree, gi) {
             staged.push(stage(&dir, file, staged.len()));
         }
         staged.push(stage(&dir, efg_file(name, tree, EfgStyle::PLAIN), staged.len()));
